@@ -7,10 +7,12 @@ import (
 	"encoding/binary"
 	"fmt"
 	"io"
+	"math"
 	"math/rand"
 	"net"
 	"net/http"
 	"os"
+	"sort"
 	"sync/atomic"
 	"time"
 
@@ -179,7 +181,7 @@ func newCW(dir string, rng *rand.Rand, r *ev.Result, o worldOpt) (*cw, error) {
 
 func newCWOnce(dir string, rng *rand.Rand, r *ev.Result, o worldOpt) (*cw, error) {
 	installHooks()
-	drv.SetClock(500)
+	resetClock(500)
 	drv.GateRotation(true)
 	drv.GateImpact(true)
 	w := &cw{r: r, rng: rng, nextID: 1000}
@@ -245,7 +247,7 @@ func newCWOnce(dir string, rng *rand.Rand, r *ev.Result, o worldOpt) (*cw, error
 			}
 			w.inject(d.Report(uint32(100+i), uint64(100+rng.Intn(5000))).Bytes())
 		}
-		drv.SetClock(3201)
+		setClock(3201)
 		if n := drv.StepRotation(); n != 1 {
 			return fail(fmt.Errorf("setup: rotation did not happen at now-offset=3201 (%d)", n))
 		}
@@ -333,6 +335,73 @@ func (w *cw) shutdown() {
 	os.RemoveAll(w.Dir)
 }
 
+// ---------------------------------------------------------------- clock and the impact-position oracle
+//
+// The value the impact job stores is wall-clock derived in test builds and is
+// never predicted; its POSITION is: in every sequential order the job writes
+// the datapoint of timeslot T (T <= the highest clock value so far) at index
+// T-offset of the window as it is at that moment, and a rotation moves stored
+// values DOWN by 2016. So, as long as the clock of a world never moved
+// backwards, no impact index above clockHigh-offset(final) may be non-zero.
+
+var (
+	clockHigh atomic.Uint32
+	clockBack atomic.Bool
+)
+
+func resetClock(v uint32) { // a new world (fresh server, fresh impact arrays)
+	clockHigh.Store(v)
+	clockBack.Store(false)
+	drv.SetClock(v)
+}
+
+func setClock(v uint32) {
+	for {
+		h := clockHigh.Load()
+		if v < h {
+			clockBack.Store(true)
+			break
+		}
+		if clockHigh.CompareAndSwap(h, v) {
+			break
+		}
+	}
+	drv.SetClock(v)
+}
+
+// impactInFuture lists impact values stored for timeslots after the highest clock value.
+func impactInFuture(s *server.VerifSnap) []string {
+	var out []string
+	lim := int64(clockHigh.Load()) - int64(s.Offset) // highest index a sequential run can have written
+	for id, arr := range s.Impact {
+		if arr == nil {
+			continue
+		}
+		for i := int64(4031); i > lim && i >= 0; i-- {
+			if math.Float64bits(arr[i]) != 0 {
+				out = append(out, fmt.Sprintf("device %d: impact[%d]=%v, i.e. timeslot %d, while the clock never exceeded %d (window offset %d)", id, i, arr[i], int64(s.Offset)+i, clockHigh.Load(), s.Offset))
+				break
+			}
+		}
+	}
+	sort.Strings(out)
+	return out
+}
+
+// checkImpactPositions applies the oracle to the server's current state.
+func checkImpactPositions(s *server.GCAServer, r *ev.Result, ctx string, replay interface{}) bool {
+	if clockBack.Load() {
+		return true // the clock was moved backwards in this world (path tour): the bound does not apply
+	}
+	r.Count("impact_position_checks", 1)
+	if bad := impactInFuture(s.VerifSnapshot(true)); len(bad) > 0 {
+		r.Violationf("impact-value-at-future-timeslot", map[string]interface{}{"after": ctx, "detail": replay, "found": bad, "batch": curBatch},
+			"after %s the impact array holds a value for a timeslot that had not begun (no sequential order of impact rounds and rotations stores one there): %v", ctx, bad)
+		return false
+	}
+	return true
+}
+
 // ---------------------------------------------------------------- probes
 
 // lockProbe: both mutexes must be obtainable at quiescence. A transiently
@@ -392,7 +461,7 @@ func (w *cw) quiesce(ctx string, replay interface{}) bool {
 		return false
 	}
 	w.r.Count("invariant_checks", 1)
-	return true
+	return checkImpactPositions(w.S, w.r, ctx, replay)
 }
 
 func le32(v uint32) []byte {
